@@ -9,88 +9,258 @@ PROPS_FILE = "theories/Props/C18.v"
 EXTRACT = ("theories/Extract/XC18.v", "c18", [
     "entry_rank", "entry_rank_bins", "entry_rank_bins_stable", "entry_median", "entry_mode", "entry_indexes",
     "entry_pairs", "entry_check_rank", "entry_check_bins", "entry_median_ref", "entry_check_mode",
-    "entry_indexes_ref", "entry_pairs_ref", "entry_pairs_all"])
+    "entry_indexes_ref", "entry_pairs_ref", "entry_pairs_all", "entry_all_pairs", "entry_all_pairs_ref"])
 PYX = {}
-RULE = ("quick 4000 / thorough 100000 random cases plus (thorough) every array of length <= 5 over {0,1,2} through rank_order (nbins None,1,2) and mode, every 2x2 count matrix over {0,1,2}, every 2-group layout of <= 4 members; corpus/C18 first (F5 witness, single element, nbins=1, zero-count objects, singleton groups), then random "
-        "cases per function: rank_order on 1-D/2-D int and dyadic-float arrays of 1-150 elements with ties and "
-        "negatives, nbins None or 1..300 (np.argsort of the histogram is recorded by a proxy and replayed into the "
-        "model, which re-checks that every recorded order is a sorting permutation of ITS histogram); "
-        "median_of_labels with duplicate-free request lists in arbitrary order containing absent labels "
-        "first/middle/last; mode; Indexes with 1-4 axes, 0-7 objects and zero counts; pairwise_permutations with "
-        "singleton groups, negative group ids and duplicate members.  Non-trivial: rank = at least one tie and two "
-        "distinct values (with nbins: the merging loop ran); median = an absent label and an even-count label; "
-        "mode = a tie for the maximum or >= 3 distinct values; Indexes = a zero-count object and >= 2 axes; "
-        "pairs = a group with >= 3 members.  Distinct by hash of the case.")
+RULE = ("corpus/C18 first (F5 witness, the narrow-signed-dtype wrap class, single element, 0-d, nbins=1, zero-count objects, "
+        "singleton groups); then exhaustive families in BOTH tiers: every array of length <= 4 (thorough 5) over {0,1,2} and "
+        "every array of length <= 3 (4) over {min, mid, max} of every integer dtype / {F,T} / {-inf,-0.0,+0.0,max float,...} "
+        "of float32/float64 through rank_order (nbins None,1,2) and mode; every 2x2 count matrix over {0,1,2}; every two-group "
+        "layout of <= 4 (5) members; every label image of length <= 4 (5) over {1,2} with an absent requested label; "
+        "all_pairs(n) for every n <= 12 (40).  Then quick 4000 / thorough 100000 random cases: EVERY array argument carries "
+        "its dtype (bool, int8/16/32/64, uint8/16/32, float32/64; the first 400 cases of each function cycle through all of "
+        "them) and its memory layout (C, Fortran, strided view, negative stride, transposed copy); values are drawn from "
+        "pools containing iinfo.min/max, min/2, max/2+1, +-0.0, smallest subnormal, smallest normal, largest finite and "
+        "(rank_order, mode, pairwise members) +-inf, plus small tie-rich and uniformly wide classes, so spans above half the "
+        "dtype range occur in every class.  The model sees exact integers: integer values as they are, floats as "
+        "order-preserving integer codes of their bit patterns, median images as integer multiples of 2^q (q from 0 down to "
+        "the subnormal floor and up to 2^1000).  rank_order: shapes 0-d/1-D/2-D/3-D, nbins None or 1..300 (np.argsort of "
+        "the histogram recorded by a proxy and replayed into the model, which re-checks each order against ITS histogram); "
+        "median_of_labels: label arrays of every integer dtype incl. a label at the dtype's maximum, request list as list "
+        "or ndarray of any integer dtype, duplicate-free, absent labels first/middle/last; Indexes: counts of every dtype "
+        "(8-bit maxima on one axis); pairwise_permutations: group labels of every integer dtype clustered at 0, at "
+        "iinfo.min, at iinfo.max, or (8/16-bit) spanning the full range.  Non-trivial: rank = a tie and two distinct values "
+        "(with nbins: the loop ran); median = an absent label and an even-count label; mode = a tie for the maximum or >= 3 "
+        "distinct values; Indexes = a zero-count object and >= 2 axes; pairs = a group of >= 3; all_pairs = n >= 3.")
 TRUSTED = [
     "modelled, not verified: NumPy primitives as list functions (fancy-index scatter with last write wins, boolean "
     "compaction, cumsum, bincount, lexsort = stable sort on (key1,key2,position), unique), float arithmetic on "
-    "dyadic values of small magnitude being exact (harness sends integers n with value n/2^s), "
+    "grid values being exact (see ASSUMPTIONS), "
     "scipy.sparse coo->csc lookup as a keyed sum",
     "np.argsort(hist) inside rank_order is observed through a module proxy (centrosome.rankorder.np) and replayed",
 ]
 ASSUMPTIONS = [
-    "rank_order: non-empty image, nbins >= 1 (nbins = 0 does not terminate in the code; outside 'bin limit')",
-    "median_of_labels: labels and requested indices are non-negative integers, request list duplicate-free, "
-    "labels non-empty, image and labels of equal shape",
-    "Indexes: counts is a rectangular N x M array of non-negative integers, N >= 1, total length < 2^53",
-    "values are integers or dyadic floats with |numerator| < 2^40 (no rounding in the implementation)",
+    "rank_order: non-empty image without NaN, nbins >= 1 (nbins = 0 does not terminate in the code)",
+    "median_of_labels: labels/requested indices non-negative integers <= 65535 (tables of that size are allocated), "
+    "request list duplicate-free, labels non-empty, image and labels of equal shape; image values finite, integer "
+    "values |v| <= 2^52, float values on a common grid h*2^q with |h| < 2^21 so that a+b and (a+b)/2 are exact "
+    "(at the smallest subnormal quantum: even h) - otherwise the result is the float rounding of the median",
+    "Indexes: counts is a rectangular N x M array of non-negative integral values, N >= 1",
+    "pairwise_permutations: integer group labels with max-min < 2^16 (candidate finding C18-cand-2), and not "
+    "(float members and only singleton groups) (candidate finding C18-cand-1); both excluded classes are counted",
+    "float values travel as order-preserving integer codes; -0.0 and +0.0 are the same value",
 ]
 EXHAUSTIVE = {"quick": False, "thorough": False}
 CASE_TIMEOUT = 30
 _HERE = os.path.dirname(os.path.dirname(os.path.dirname(os.path.abspath(__file__))))
 
 
-# ------------------------------------------------------------------------------ generation
+# ------------------------------------------------------------------------------ dtypes and exact value coding
+# Every case carries the dtype of every array argument.  Integer/bool values travel as Python ints.  Float values
+# travel as ORDER-PRESERVING INTEGER CODES of their IEEE bit pattern (code = magnitude bits, negated when the sign
+# bit is set; +0.0 and -0.0 both have code 0, as they compare equal; -0.0 is requested through the index list "nz"),
+# so the Coq model sees exact integers whose order is the order of the floats.  median_of_labels needs arithmetic,
+# so its image is h * 2^q with integer h ("h", "q"): exact in the dtype, sums exact in float64.
 
-def _values(rng, n):
-    """(integers, scale): value = integer / 2^scale"""
-    kind = rng.choice(["small", "small", "neg", "wide", "dyadic", "dyadic", "const", "two"])
+INT_DTYPES = ["int8", "int16", "int32", "int64", "uint8", "uint16", "uint32"]
+FLOAT_DTYPES = ["float32", "float64"]
+ALL_DTYPES = ["bool"] + INT_DTYPES + FLOAT_DTYPES
+_FW = {"float32": (32, np.uint32, 0x7F800000), "float64": (64, np.uint64, 0x7FF0000000000000)}
+LAYOUTS = ["C", "C", "F", "strided", "rev", "T"]
+
+
+def _decode(dtype, vals, nz=()):
+    if dtype in _FW:
+        w, ut, _ = _FW[dtype]
+        sign = 1 << (w - 1)
+        bits = [c if c >= 0 else ((-c) | sign) for c in vals]
+        for k in nz:
+            bits[k] = sign
+        return np.array(bits, dtype=ut).view(dtype)
+    return np.array(vals, dtype=dtype)
+
+
+def _encode(arr):
+    """array -> list of exact integers (codes for floats); None when a NaN is present"""
+    arr = np.ascontiguousarray(arr).ravel()
+    dt = arr.dtype.name
+    if dt in _FW:
+        w, ut, inf = _FW[dt]
+        bits = arr.view(ut)
+        res = []
+        for b in bits.tolist():
+            mag = b & ((1 << (w - 1)) - 1)
+            if mag > inf:
+                return None
+            res.append(-mag if (b >> (w - 1)) else mag)
+        return res
+    return [int(x) for x in arr.tolist()]
+
+
+def _layout(a, kind):
+    """an array equal to a whose memory layout is of the given kind"""
+    if a.ndim == 0 or kind == "C":
+        return np.ascontiguousarray(a)
+    if kind == "F":
+        return np.asfortranarray(a)
+    if kind == "T":
+        return a.T.copy().T
+    if kind == "rev":
+        return a[::-1].copy()[::-1]
+    big = np.zeros(tuple(2 * s + 1 for s in a.shape), a.dtype)
+    view = big[tuple(slice(1, None, 2) for _ in a.shape)]
+    view[...] = a
+    return view
+
+
+def _float_codes(dtype, xs):
+    return _encode(np.array(xs, dtype=dtype))
+
+
+def _pool(dtype, allow_inf=True):
+    if dtype == "bool":
+        return [0, 1]
+    if dtype in _FW:
+        w, ut, inf = _FW[dtype]
+        tiny = 1 << (23 if w == 32 else 52)
+        one = _float_codes(dtype, [1.0])[0]
+        p = [0, 1, -1, 2, tiny, -tiny, tiny - 1, one, -one, inf - 1, -(inf - 1), inf - 2]
+        if allow_inf:
+            p += [inf, -inf]
+        return p
+    ii = np.iinfo(dtype)
+    p = {ii.min, ii.min + 1, ii.min // 2, ii.min // 2 - 1, -1, 0, 1, 2, ii.max // 2, ii.max // 2 + 1, ii.max - 1, ii.max,
+         -100, 100, 90}
+    return sorted(x for x in p if ii.min <= x <= ii.max)
+
+
+def _gen_vals(rng, dtype, n, allow_inf=True):
+    """(vals, nz): n exact values of the dtype incl. its extremes, spans > half the range, ties"""
+    if dtype == "bool":
+        return rng.randint(0, 2, n).tolist(), []
+    pool = _pool(dtype, allow_inf)
+    kind = rng.choice(["small", "extreme", "extreme", "mixed", "wide", "const", "two"])
+    if dtype in _FW:
+        w, ut, inf = _FW[dtype]
+        small = _float_codes(dtype, [-3, -2, -1, -0.5, 0, 0.5, 1, 2, 3, 7])
+        top = inf if allow_inf else inf - 1
+        if kind == "small":
+            vals = [int(rng.choice(small)) for _ in range(n)]
+        elif kind == "extreme":
+            vals = [pool[rng.randint(len(pool))] for _ in range(n)]
+        elif kind == "mixed":
+            vals = [pool[rng.randint(len(pool))] if rng.rand() < 0.5 else int(rng.choice(small)) for _ in range(n)]
+        elif kind == "wide":
+            vals = [int(rng.randint(0, 1 << 30)) * (top >> 30) + int(rng.randint(0, 1 << 20)) for _ in range(n)]
+            vals = [min(v, top) * (1 if rng.rand() < 0.5 else -1) for v in vals]
+        elif kind == "const":
+            vals = [pool[rng.randint(len(pool))]] * n
+        else:
+            a, b = pool[rng.randint(len(pool))], pool[rng.randint(len(pool))]
+            vals = [a if rng.rand() < 0.5 else b for _ in range(n)]
+        nz = [k for k, v in enumerate(vals) if v == 0 and rng.rand() < 0.5]
+        return vals, nz
+    ii = np.iinfo(dtype)
+    lo, hi = int(ii.min), int(ii.max)
     if kind == "small":
-        return rng.randint(0, int(rng.choice([2, 3, 5, 10])), n).tolist(), 0
-    if kind == "neg":
-        return rng.randint(-6, 7, n).tolist(), 0
-    if kind == "wide":
-        return rng.randint(-100000, 100000, n).tolist(), 0
-    if kind == "dyadic":
-        s = int(rng.choice([1, 2, 4, 10]))
-        return rng.randint(-40, 41, n).tolist(), s
-    if kind == "const":
-        return [int(rng.randint(-3, 4))] * n, 0
-    a = rng.randint(-3, 4, 2)
-    return rng.choice(a, n).tolist(), int(rng.choice([0, 3]))
+        k = int(rng.choice([2, 3, 5, 10]))
+        vals = [int(rng.randint(max(lo, -k), k)) for _ in range(n)]
+    elif kind == "extreme":
+        vals = [pool[rng.randint(len(pool))] for _ in range(n)]
+    elif kind == "mixed":
+        vals = [pool[rng.randint(len(pool))] if rng.rand() < 0.5 else int(rng.randint(max(lo, -5), 6)) for _ in range(n)]
+    elif kind == "wide":
+        vals = [lo + (int(rng.randint(0, 1 << 31)) * (1 << 33) + int(rng.randint(0, 1 << 31))) % (hi - lo + 1) for _ in range(n)]
+    elif kind == "const":
+        vals = [pool[rng.randint(len(pool))]] * n
+    else:
+        a, b = (lo, hi) if rng.rand() < 0.5 else (pool[rng.randint(len(pool))], pool[rng.randint(len(pool))])
+        vals = [a if rng.rand() < 0.5 else b for _ in range(n)]
+    return vals, []
 
 
-def _gen_rank(ctx, rng):
-    n = int(rng.choice([1, 1, 2, 2, 3, 4, 5, 8, 13, 20, 40, 60, 100, 150]))
-    a, s = _values(rng, n)
-    shape = None
-    if n > 1 and rng.rand() < 0.25:
+def _shape_for(rng, n, allow0d=True):
+    u = rng.rand()
+    if n == 1 and allow0d and u < 0.15:
+        return []
+    if n > 1 and u < 0.3:
         d = [k for k in range(1, n + 1) if n % k == 0]
         h = int(rng.choice(d))
-        shape = [h, n // h]
+        return [h, n // h]
+    if n > 3 and u < 0.4:
+        d = [k for k in range(1, n + 1) if n % k == 0]
+        a = int(rng.choice(d))
+        e = [k for k in range(1, n // a + 1) if (n // a) % k == 0]
+        b = int(rng.choice(e))
+        return [a, b, n // a // b]
+    return None
+
+
+def _build(dtype, vals, nz, shape, layout):
+    a = _decode(dtype, vals, nz)
+    if shape is not None:
+        a = a.reshape(shape)
+    return _layout(a, layout)
+
+
+# ------------------------------------------------------------------------------ generation
+
+def _gen_rank(ctx, rng, dtype=None):
+    n = int(rng.choice([1, 1, 2, 2, 3, 4, 5, 6, 8, 13, 20, 40, 60, 100, 150]))
+    dtype = dtype or str(rng.choice(ALL_DTYPES))
+    vals, nz = _gen_vals(rng, dtype, n)
     nb = None
     u = rng.rand()
-    nd = len(set(a))
+    nd = len(set(vals))
     if u < 0.25:
         nb = int(rng.randint(1, 6))
     elif u < 0.45:
         nb = max(1, nd + int(rng.randint(-3, 3)))
     elif u < 0.60:
         nb = int(rng.randint(1, 301))
-    return {"fn": "rank", "a": a, "scale": s, "shape": shape, "nbins": nb,
-            "float": bool(s > 0 or rng.rand() < 0.5)}
+    return {"fn": "rank", "dtype": dtype, "vals": vals, "nz": nz, "shape": _shape_for(rng, n),
+            "layout": str(rng.choice(LAYOUTS)), "nbins": nb}
 
 
-def _gen_median(ctx, rng):
+_MEDQ = {"float32": [0, -3, -149, -140, 100], "float64": [0, -3, -1074, -1060, 1000]}
+_LABMAX = {"int8": 127, "uint8": 255, "int16": 32767, "uint16": 65535, "int32": 40000, "int64": 40000, "uint32": 40000}
+
+
+def _gen_median(ctx, rng, dtype=None):
     n = int(rng.choice([1, 2, 3, 4, 6, 10, 20, 40, 80]))
     nl = int(rng.choice([1, 2, 3, 5, 8]))
+    dtype = dtype or str(rng.choice(ALL_DTYPES))
+    ldtype = str(rng.choice(INT_DTYPES))
     labels = rng.randint(0, nl + 1, n)
     if rng.rand() < 0.3:
         labels = np.sort(labels)
     if rng.rand() < 0.3:           # drop one label entirely
         drop = int(rng.randint(0, nl + 1))
         labels = np.where(labels == drop, (drop + 1) % (nl + 1), labels)
-    vals, s = _values(rng, n)
+    labels = labels.tolist()
+    big = None
+    if rng.rand() < 0.04:          # a label at the label dtype's extreme (tables of that size are allocated)
+        big = _LABMAX[ldtype]
+        labels[int(rng.randint(n))] = big
+    q = 0
+    if dtype in _FW:
+        q = int(rng.choice(_MEDQ[dtype]))
+        kind = rng.choice(["small", "wide", "const"])
+        if kind == "small":
+            h = rng.randint(-6, 7, n).tolist()
+        elif kind == "wide":
+            h = rng.randint(-(1 << 20) + 1, 1 << 20, n).tolist()
+        else:
+            h = [int(rng.randint(-5, 6))] * n
+        if q == min(_MEDQ[dtype]):
+            # at the smallest subnormal quantum the half of an odd sum is not a float: even multipliers only
+            h = [2 * v for v in h]
+    else:
+        h, _ = _gen_vals(rng, dtype, n)
+        if dtype == "int64":
+            capped = [max(-(1 << 52), min(1 << 52, v)) for v in h]
+            if capped != h:
+                ctx.count("excluded:median int64 beyond 2^52 (not a float64)")
+            h = capped
     pool = list(range(0, nl + 4))
     rng.shuffle(pool)
     k = int(rng.randint(0, len(pool) + 1))
@@ -104,43 +274,88 @@ def _gen_median(ctx, rng):
         idx = sorted(idx) + [nl + 5]            # trailing absent label (F5 class)
     elif u < 0.5 and idx:
         idx = [nl + 6] + idx                    # leading absent label
-    shape = None
-    if n > 1 and rng.rand() < 0.3:
-        d = [q for q in range(1, n + 1) if n % q == 0]
-        h = int(rng.choice(d))
-        shape = [h, n // h]
-    return {"fn": "median", "image2": [2 * int(v) for v in vals], "scale": s, "labels": labels.tolist(),
-            "indices": [int(x) for x in idx], "shape": shape}
+    if big is not None and rng.rand() < 0.7:
+        idx = idx + [big]
+    coded, nz = False, []
+    if dtype in _FW and rng.rand() < 0.3:
+        # "selection" class: arbitrary floats of the dtype (extremes, subnormals, +-inf, +-0.0) as order-preserving
+        # codes; every requested label gets an odd pixel count, so its median is a copy of a pixel (no arithmetic)
+        coded, q = True, 0
+        h, nz = _gen_vals(rng, dtype, n)
+        spare = nl + 9
+        for l in set(idx):
+            if l != spare and labels.count(l) % 2 == 0 and labels.count(l) > 0:
+                labels[labels.index(l)] = spare
+    shape = _shape_for(rng, n, allow0d=False)
+    return {"fn": "median", "dtype": dtype, "h": [int(v) for v in h], "q": q, "coded": coded, "nz": nz, "ldtype": ldtype, "labels": labels,
+            "indices": [int(x) for x in idx], "shape": shape, "layout": str(rng.choice(LAYOUTS)),
+            "llayout": str(rng.choice(LAYOUTS)),
+            "xdtype": (str(rng.choice([d for d in INT_DTYPES if max(idx + [0]) <= _LABMAX[d]])) if rng.rand() < 0.4 else None)}
 
 
-def _gen_mode(ctx, rng):
+def _gen_mode(ctx, rng, dtype=None):
     n = int(rng.choice([0, 1, 2, 3, 5, 8, 13, 25, 40]))
-    a, s = _values(rng, n)
-    return {"fn": "mode", "a": a, "scale": s}
+    dtype = dtype or str(rng.choice(ALL_DTYPES))
+    vals, nz = _gen_vals(rng, dtype, n)
+    aslist = bool(dtype == "int64" and rng.rand() < 0.3)
+    shape = _shape_for(rng, n) if n else [None, [0], [0, 3], [2, 0]][rng.randint(4)]
+    return {"fn": "mode", "dtype": dtype, "vals": vals, "nz": nz, "shape": shape,
+            "layout": str(rng.choice(LAYOUTS)), "aslist": aslist}
 
 
-def _gen_indexes(ctx, rng):
+def _gen_indexes(ctx, rng, dtype=None):
     nd = int(rng.choice([1, 1, 2, 2, 3, 4]))
     m = int(rng.choice([0, 1, 2, 3, 4, 5, 7]))
-    hi = int(rng.choice([2, 3, 4, 5]))
+    dtype = dtype or str(rng.choice(ALL_DTYPES))
+    hi = 2 if dtype == "bool" else int(rng.choice([2, 3, 4, 5]))
     counts = rng.randint(0, hi, (nd, m))
     if rng.rand() < 0.2:
         counts = np.maximum(counts, 1)
     if rng.rand() < 0.1 and m:
         counts[rng.randint(nd)] = 0
+    if dtype in ("int8", "uint8") and nd == 1 and m and rng.rand() < 0.3:
+        counts[0, rng.randint(m)] = np.iinfo(dtype).max      # the count dtype's extreme (one axis: 127/255 rows)
     oned = bool(nd == 1 and rng.rand() < 0.5)
-    return {"fn": "indexes", "counts": counts.tolist(), "oned": oned}
+    return {"fn": "indexes", "dtype": dtype, "counts": counts.tolist(), "oned": oned, "layout": str(rng.choice(LAYOUTS))}
 
 
-def _gen_pairs(ctx, rng):
+def _gen_pairs(ctx, rng, dtype=None):
     n = int(rng.choice([0, 1, 2, 3, 4, 6, 9, 14, 22]))
-    lo = int(rng.choice([0, 0, -3, 5]))
-    i = rng.randint(lo, lo + int(rng.choice([1, 2, 3, 6])) + 1, n)
-    if rng.rand() < 0.5:
-        j = rng.permutation(60)[:n] - int(rng.choice([0, 20]))
+    idtype = str(rng.choice(INT_DTYPES))
+    jdtype = dtype or str(rng.choice(ALL_DTYPES))
+    ii = np.iinfo(idtype)
+    lo, hi = int(ii.min), int(ii.max)
+    k = int(rng.choice([1, 2, 3, 6]))
+    where = rng.choice(["zero", "zero", "hi", "lo", "full"])
+    if where == "full" and ii.bits > 16:
+        # the code allocates (and never reads) a table of max(i)-min(i)+1 entries: spans above 2^16 are excluded
+        ctx.count("excluded:pairs group-label span > 2^16 (dead i_to_r table; see findings/C18.json)")
+        where = "hi"
+    if where == "zero":
+        base = max(lo, -3 if rng.rand() < 0.3 else 0)
+        i = [base + int(rng.randint(0, k + 1)) for _ in range(n)]
+    elif where == "hi":
+        i = [hi - int(rng.randint(0, k + 1)) for _ in range(n)]
+    elif where == "lo":
+        i = [lo + int(rng.randint(0, k + 1)) for _ in range(n)]
     else:
-        j = rng.randint(-3, 6, n)
-    return {"fn": "pairs", "i": i.tolist(), "j": j.tolist()}
+        ch = [lo, hi, lo + 1, hi - 1, 0]
+        i = [ch[rng.randint(len(ch))] for _ in range(n)]
+    if rng.rand() < 0.5 and jdtype not in ("bool",):
+        pool = _pool(jdtype)
+        j = [pool[rng.randint(len(pool))] for _ in range(n)]
+        jnz = [q for q, v in enumerate(j) if v == 0 and jdtype in _FW and rng.rand() < 0.5]
+    else:
+        j, jnz = _gen_vals(rng, jdtype, n)
+    if jdtype in _FW and n >= 1 and len(set(i)) == n:
+        # candidate finding C18-cand-1 (findings/C18.json): float members + only singleton groups raise IndexError
+        ctx.count("excluded:pairs float members with only singleton groups (candidate finding C18-cand-1)")
+        if n >= 2:
+            i[1] = i[0]
+        else:
+            jdtype, j, jnz = "int64", [int(rng.randint(-5, 6))], []
+    return {"fn": "pairs", "idtype": idtype, "i": i, "jdtype": jdtype, "j": j, "jnz": jnz,
+            "layout": str(rng.choice(["C", "strided", "rev"]))}
 
 
 _GENS = [("rank", _gen_rank, 0.36), ("median", _gen_median, 0.24), ("mode", _gen_mode, 0.12),
@@ -158,28 +373,77 @@ def _corpus():
     return cases
 
 
+def _exhaustive(ctx):
+    """small exhaustive families; the quick tier runs the cheaper half"""
+    import itertools
+    cases = []
+    quick = ctx.quick()
+
+    def rank_mode(dtype, a, nz=()):
+        for nb in (None, 1, 2):
+            cases.append({"fn": "rank", "dtype": dtype, "vals": list(a), "nz": list(nz), "shape": None, "layout": "C",
+                          "nbins": nb})
+        cases.append({"fn": "mode", "dtype": dtype, "vals": list(a), "nz": list(nz), "shape": None, "layout": "C",
+                      "aslist": False})
+    # every array of length <= 4 (5) over {0,1,2}
+    for n in range(1, 5 if quick else 6):
+        for a in itertools.product(range(3), repeat=n):
+            rank_mode("int64", a)
+    # every array of length <= 3 (4) over {min, mid, max} of every integer dtype, {F,T} for bool,
+    # {-inf, -max, -0.0, +0.0, min subnormal, max, inf} (quick: 4 of them) for the float dtypes
+    for dt in ALL_DTYPES:
+        if dt == "bool":
+            alpha = [(0, False), (1, False)]
+        elif dt in _FW:
+            inf = _FW[dt][2]
+            alpha = [(-inf, False), (0, True), (0, False), (inf - 1, False)]
+            if not quick:
+                alpha += [(-(inf - 1), False), (1, False), (inf, False)]
+        else:
+            ii = np.iinfo(dt)
+            alpha = [(int(ii.min), False), (int(ii.min) // 2 + int(ii.max) // 2 + 1, False), (int(ii.max), False)]
+        for n in range(1, 4 if (quick or dt in _FW) else 5):
+            for a in itertools.product(alpha, repeat=n):
+                rank_mode(dt, [x[0] for x in a], [k for k, x in enumerate(a) if x[1]])
+    # every 2x2 count matrix over {0,1,2}
+    for c in itertools.product(range(3), repeat=4):
+        cases.append({"fn": "indexes", "dtype": "int64", "counts": [[c[0], c[1]], [c[2], c[3]]], "oned": False,
+                      "layout": "C"})
+    # every layout of <= 4 (5) members in two groups
+    for n in range(0, 5 if quick else 6):
+        for i in itertools.product(range(2), repeat=n):
+            cases.append({"fn": "pairs", "idtype": "int64", "i": list(i), "jdtype": "int64",
+                          "j": list(range(10, 10 + n)), "jnz": [], "layout": "C"})
+    # every label image of length <= 4 (5) over {1,2} with two request lists containing an absent label
+    for n in range(1, 5 if quick else 6):
+        for lab in itertools.product((1, 2), repeat=n):
+            for idx in ([1, 2, 3], [3, 2, 1]):
+                cases.append({"fn": "median", "dtype": "float64", "h": [3 * k * k - 7 * k for k in range(n)], "q": -3,
+                              "ldtype": "int64", "labels": list(lab), "indices": idx, "shape": None, "layout": "C",
+                              "llayout": "C"})
+    # index.all_pairs(n) for every n up to 12 (40), n given as int / numpy integer
+    for n in range(0, 13 if quick else 41):
+        cases.append({"fn": "allpairs", "n": n, "ntype": ["int", "int64", "uint8", "int32"][n % 4]})
+    for c in cases:
+        ctx.count("exhaustive-family cases")
+    return cases
+
+
 def generate(ctx):
     rng = ctx.rng
-    cases = _corpus()
+    cases = _corpus() + _exhaustive(ctx)
     total = ctx.n(4000, 100000)
-    if not ctx.quick():
-        # small exhaustive families (thorough tier): every array of length <= 5 over {0,1,2}
-        import itertools
-        for n in range(1, 6):
-            for a in itertools.product(range(3), repeat=n):
-                for nb in (None, 1, 2):
-                    cases.append({"fn": "rank", "a": list(a), "scale": 0, "shape": None, "nbins": nb, "float": False})
-                cases.append({"fn": "mode", "a": list(a), "scale": 0})
-        for c in itertools.product(range(3), repeat=4):
-            cases.append({"fn": "indexes", "counts": [[c[0], c[1]], [c[2], c[3]]], "oned": False})
-        for n in range(0, 5):
-            for i in itertools.product(range(2), repeat=n):
-                cases.append({"fn": "pairs", "i": list(i), "j": list(range(10, 10 + n))})
     for name, g, frac in _GENS:
-        for _ in range(int(total * frac)):
-            cases.append(g(ctx, rng))
+        k = int(total * frac)
+        for t in range(k):
+            # the first cases of every function walk through every dtype it accepts
+            dt = ALL_DTYPES[t % len(ALL_DTYPES)] if t < 40 * len(ALL_DTYPES) else None
+            cases.append(g(ctx, rng, dt))
     for c in cases:
         ctx.count(c["fn"])
+        ctx.count("dtype:" + c.get("dtype", c.get("jdtype", c.get("ntype", "?"))))
+        if "layout" in c:
+            ctx.count("layout:" + c["layout"])
         if c["fn"] == "rank":
             ctx.count("rank:nbins" if c["nbins"] is not None else "rank:plain")
     return cases
@@ -202,25 +466,24 @@ class _NPProxy(object):
         return r
 
 
-def _ints(x, scale):
-    """float array -> exact integers x*2^scale, or None"""
-    y = np.asarray(x, dtype=np.float64) * float(2 ** scale)
-    r = np.rint(y)
-    if not np.array_equal(r, y):
-        return None
-    return [int(v) for v in r.ravel().tolist()]
+def _median_image(case):
+    dt = case["dtype"]
+    if case.get("coded"):
+        return _decode(dt, case["h"], case.get("nz", []))
+    h = np.array(case["h"], dtype=np.int64)
+    if dt in _FW:
+        x = np.ldexp(h.astype(np.float64), case["q"])
+        a = x.astype(dt)
+        assert np.array_equal(a.astype(np.float64), x) and np.isfinite(x).all(), "generator: value not exact in dtype"
+        return a
+    return np.array(case["h"], dtype=dt)
 
 
 def impl(case):
     fn = case["fn"]
     if fn == "rank":
         from centrosome import rankorder
-        s = case["scale"]
-        a = np.array(case["a"], dtype=np.int64)
-        if case["float"]:
-            a = a.astype(np.float64) / float(2 ** s)
-        if case["shape"]:
-            a = a.reshape(case["shape"])
+        a = _build(case["dtype"], case["vals"], case["nz"], case["shape"], case["layout"])
         keep = a.copy()
         proxy = _NPProxy()
         old = rankorder.np
@@ -229,55 +492,69 @@ def impl(case):
             r, v = rankorder.rank_order(a, case["nbins"]) if case["nbins"] is not None else rankorder.rank_order(a)
         finally:
             rankorder.np = old
-        vi = _ints(v, s if case["float"] else 0)
-        return {"r": [int(x) for x in np.asarray(r).ravel().tolist()], "v": vi,
-                "shape_ok": bool(np.asarray(r).shape == a.shape), "unchanged": bool(np.array_equal(keep, a)),
+        r = np.asarray(r)
+        return {"r": [int(x) for x in np.ascontiguousarray(r).ravel().tolist()], "v": _encode(v),
+                "shape_ok": bool(r.shape == a.shape), "vdtype_ok": bool(np.asarray(v).dtype == a.dtype),
+                "unchanged": bool(keep.tobytes() == np.ascontiguousarray(a).tobytes()),
                 "orders": [o[1] for o in proxy.orders], "hists": [o[0] for o in proxy.orders]}
     if fn == "median":
         from centrosome.cpmorphology import median_of_labels
-        s = case["scale"] + 1
-        img = np.array(case["image2"], dtype=np.float64) / float(2 ** s)
-        lab = np.array(case["labels"], dtype=np.int64)
-        if case["shape"]:
+        img = _median_image(case)
+        lab = np.array(case["labels"], dtype=case["ldtype"])
+        if case["shape"] is not None:
             img = img.reshape(case["shape"]); lab = lab.reshape(case["shape"])
-        m = np.asarray(median_of_labels(img, lab, list(case["indices"])), dtype=np.float64)
+        img = _layout(img, case["layout"]); lab = _layout(lab, case["llayout"])
+        req = list(case["indices"])
+        if case.get("xdtype"):
+            req = np.array(req, dtype=case["xdtype"])       # the request list as an ndarray of that dtype
+        m = np.asarray(median_of_labels(img, lab, req), dtype=np.float64)
         res = []
         for x in m.ravel().tolist():
             if x != x:
                 res.append([])
+            elif case.get("coded"):
+                back = np.array([x], dtype=np.float64).astype(case["dtype"])
+                if float(back[0]) != x:
+                    return {"nonint": x}
+                res.append([2 * _encode(back)[0]])
             else:
-                y = x * float(2 ** s)
+                y = float(np.ldexp(np.float64(x), 1 - case["q"]))
                 if y != int(y):
                     return {"nonint": x}
                 res.append([int(y)])
         return {"m": res, "n": int(m.size)}
     if fn == "mode":
         from centrosome.mode import mode
-        s = case["scale"]
-        a = np.array(case["a"], dtype=np.int64)
-        if s:
-            a = a.astype(np.float64) / float(2 ** s)
-        return {"m": _ints(mode(a), s)}
+        a = _build(case["dtype"], case["vals"], case["nz"], case["shape"], case["layout"])
+        if case["aslist"]:
+            a = a.tolist()
+        m = mode(a)
+        return {"m": _encode(m), "dtype_ok": bool(case["aslist"] or np.asarray(m).dtype == np.asarray(a).dtype)}
     if fn == "indexes":
         from centrosome.index import Indexes
-        c = np.array(case["counts"], dtype=np.int64)
         nd = len(case["counts"])
+        c = np.array(case["counts"], dtype=np.int64)
         if c.ndim != 2:
             c = c.reshape(nd, 0)
+        c = _layout(c.astype(case["dtype"]), case["layout"])
         ix = Indexes(c[0] if case["oned"] else c)
         idx = np.asarray(ix.idx)
         return {"length": int(ix.length), "fwd": np.asarray(ix.fwd_idx).astype(np.int64).tolist(),
                 "rev": np.asarray(ix.rev_idx).astype(np.int64).tolist(),
                 "idx": [[int(v) for v in row] for row in idx.tolist()],
                 "idx_integral": bool(np.array_equal(idx, np.asarray(idx).astype(np.int64))),
-                "counts_ok": bool(np.array_equal(ix.counts, np.atleast_2d(c)))}
+                "counts_ok": bool(np.array_equal(ix.counts, np.atleast_2d(c).astype(np.int64)))}
+    if fn == "allpairs":
+        from centrosome.index import all_pairs
+        n = case["n"] if case["ntype"] == "int" else getattr(np, case["ntype"])(case["n"])
+        r = np.asarray(all_pairs(n))
+        return {"p": [[int(a), int(b)] for a, b in r.reshape(-1, 2).tolist()], "shape": list(r.shape)}
     if fn == "pairs":
         from centrosome.cpmorphology import pairwise_permutations
-        i = np.array(case["i"], dtype=np.int64)
-        j = np.array(case["j"], dtype=np.int64)
+        i = _layout(np.array(case["i"], dtype=case["idtype"]), case["layout"])
+        j = _layout(_decode(case["jdtype"], case["j"], case["jnz"]), case["layout"])
         di, d1, d2 = pairwise_permutations(i, j)
-        return {"di": [int(x) for x in np.asarray(di).tolist()], "d1": [int(x) for x in np.asarray(d1).tolist()],
-                "d2": [int(x) for x in np.asarray(d2).tolist()]}
+        return {"di": [int(x) for x in np.asarray(di).tolist()], "d1": _encode(d1), "d2": _encode(d2)}
     raise ValueError(fn)
 
 
@@ -305,19 +582,21 @@ def _model_arg(k, c, outs):
     fn = c["fn"]
     if fn == "rank":
         if c["nbins"] is None:
-            return ("entry_rank", [c["a"]])
+            return ("entry_rank", [c["vals"]])
         if _bad(outs[k]) or not outs[k]["orders"]:
             # nothing recorded (loop not entered, or the code no longer calls np.argsort): stable oracle
-            return ("entry_rank_bins_stable", [c["a"], c["nbins"]])
-        return ("entry_rank_bins", [c["a"], c["nbins"], outs[k]["orders"]])
+            return ("entry_rank_bins_stable", [c["vals"], c["nbins"]])
+        return ("entry_rank_bins", [c["vals"], c["nbins"], outs[k]["orders"]])
     if fn == "median":
-        return ("entry_median", [c["image2"], c["labels"], c["indices"]])
+        return ("entry_median", [[2 * v for v in c["h"]], c["labels"], c["indices"]])
     if fn == "mode":
-        return ("entry_mode", [c["a"]])
+        return ("entry_mode", [c["vals"]])
     if fn == "indexes":
         return ("entry_indexes", c["counts"])
     if fn == "pairs":
         return ("entry_pairs", [c["i"], c["j"]])
+    if fn == "allpairs":
+        return ("entry_all_pairs", c["n"])
 
 
 def model(ctx, cases, outs):
@@ -337,6 +616,8 @@ def _impl_sx(c, o):
         return [o["length"], o["fwd"], o["rev"], o["idx"]]
     if fn == "pairs":
         return [o["di"], o["d1"], o["d2"]]
+    if fn == "allpairs":
+        return o["p"]
 
 
 def compare(case, out, m):
@@ -367,18 +648,20 @@ def _check_arg(k, c, o):
         if o["v"] is None:
             return None
         if c["nbins"] is None:
-            return ("entry_check_rank", [c["a"], o["r"], o["v"]])
-        return ("entry_check_bins", [c["a"], c["nbins"], o["r"], o["v"]])
+            return ("entry_check_rank", [c["vals"], o["r"], o["v"]])
+        return ("entry_check_bins", [c["vals"], c["nbins"], o["r"], o["v"]])
     if fn == "median":
-        return ("entry_median_ref", [c["image2"], c["labels"], c["indices"]])
+        return ("entry_median_ref", [[2 * v for v in c["h"]], c["labels"], c["indices"]])
     if fn == "mode":
         if o["m"] is None:
             return None
-        return ("entry_check_mode", [c["a"], sorted(o["m"])])
+        return ("entry_check_mode", [c["vals"], sorted(o["m"])])
     if fn == "indexes":
         return ("entry_indexes_ref", c["counts"])
     if fn == "pairs":
         return ("entry_pairs_all", [c["i"], c["j"]])
+    if fn == "allpairs":
+        return ("entry_all_pairs_ref", c["n"])
 
 
 def check(ctx, cases, outs):
@@ -409,7 +692,7 @@ def check(ctx, cases, outs):
             elif r != o["m"]:
                 bad = [q for q in range(len(r)) if r[q] != o["m"][q]]
                 res[k] = "median_of_labels: label %d: got %s, median (x2^%d) is %s (NaN = [])" % (
-                    c["indices"][bad[0]], o["m"][bad[0]], c["scale"] + 1, r[bad[0]])
+                    c["indices"][bad[0]], o["m"][bad[0]], 1 - c["q"], r[bad[0]])
         elif fn == "mode":
             if o["m"] is None:
                 res[k] = "mode: returned values are not input values"
@@ -423,6 +706,15 @@ def check(ctx, cases, outs):
                     str(_impl_sx(c, o))[:200], str(r)[:200])
             elif not (o["idx_integral"] and o["counts_ok"]):
                 res[k] = "Indexes: idx not integral or counts not preserved"
+        elif fn == "allpairs":
+            n = c["n"]
+            if r != o["p"]:
+                res[k] = "all_pairs(%d): not the documented enumeration (Spec.SpecC18.all_pairs_ref): %s" % (n, str(o["p"])[:200])
+            elif sorted(map(tuple, o["p"])) != [(a, b) for a in range(n) for b in range(n) if a != b]:
+                res[k] = "all_pairs(%d): not every ordered non-identity pair exactly once" % n
+            elif any(sorted(map(tuple, o["p"][:m * (m - 1)])) != [(a, b) for a in range(m) for b in range(m) if a != b]
+                     for m in range(n + 1)):
+                res[k] = "all_pairs(%d): the first m(m-1) rows are not the pairs of the first m things" % n
         elif fn == "pairs":
             got = sorted([g, min(a, b), max(a, b)] for g, a, b in zip(o["di"], o["d1"], o["d2"]))
             if not (len(o["di"]) == len(o["d1"]) == len(o["d2"])):
@@ -438,7 +730,7 @@ def nontrivial(case, out):
     if _bad(out):
         return False
     if fn == "rank":
-        a = case["a"]
+        a = case["vals"]
         if not (len(set(a)) >= 2 and len(set(a)) < len(a)):
             return False
         return case["nbins"] is None or len(out["orders"]) >= 1
@@ -446,21 +738,25 @@ def nontrivial(case, out):
         cnt = {l: case["labels"].count(l) for l in case["indices"]}
         return any(v == 0 for v in cnt.values()) and any(v > 0 and v % 2 == 0 for v in cnt.values())
     if fn == "mode":
-        return len(out["m"] or []) >= 2 or len(set(case["a"])) >= 3
+        return len(out["m"] or []) >= 2 or len(set(case["vals"])) >= 3
     if fn == "indexes":
         c = np.array(case["counts"])
         return c.ndim == 2 and c.shape[0] >= 2 and c.shape[1] >= 1 and bool((c.prod(0) == 0).any()) and out["length"] > 0
     if fn == "pairs":
         return any(case["i"].count(g) >= 3 for g in set(case["i"]))
+    if fn == "allpairs":
+        return case["n"] >= 3
     return False
 
 
 def kernel_crosscheck(ctx, cases, outs):
     want = {"entry_rank": 10, "entry_rank_bins": 12, "entry_median": 12, "entry_mode": 8, "entry_indexes": 8,
-            "entry_pairs": 8}
+            "entry_pairs": 8, "entry_all_pairs": 6}
     picked = {}
-    for k, c in enumerate(cases):
-        if _bad(outs[k]):
+    order = list(range(0, len(cases), 7)) + [k for k in range(len(cases)) if k % 7]
+    for k in order:
+        c = cases[k]
+        if _bad(outs[k]) or (c["fn"] == "median" and max(c["labels"] + c["indices"] + [0]) > 300):
             continue
         e = _model_arg(k, c, outs)
         size = len(json.dumps(c))
@@ -469,7 +765,7 @@ def kernel_crosscheck(ctx, cases, outs):
     n = 0
     for entry, items in picked.items():
         exp = [_impl_sx(cases[k], outs[k]) for k, _ in items]
-        r = ctx.coq_eval_eq("Model.EntryC18", entry, [a for _, a in items], exp, tag=entry)
+        r = ctx.coq_eval_eq("Model.AllPairsC18" if entry == "entry_all_pairs" else "Model.EntryC18", entry, [a for _, a in items], exp, tag=entry)
         n += len(items)
         bad = [k for (k, _), b in zip(items, r) if b is not True]
         if bad:
@@ -483,7 +779,7 @@ def search_cases(ctx, rnd):
     cases = []
     for name, g, frac in _GENS:
         for _ in range(int(1500 * frac)):
-            cases.append(g(ctx, rng))
+            cases.append(g(ctx, rng, None))
     return cases
 
 
@@ -492,46 +788,58 @@ def _drop_each(lst):
         yield lst[:k] + lst[k + 1:]
 
 
+def _drop_vals(c, key, nzkey):
+    """drop one element of a value list, keeping the -0.0 index list consistent"""
+    vals = c[key]
+    for k in range(len(vals)):
+        d = dict(c)
+        d[key] = vals[:k] + vals[k + 1:]
+        d[nzkey] = [q - (1 if q > k else 0) for q in c.get(nzkey, []) if q != k]
+        if "shape" in d:
+            d["shape"] = None
+        yield d
+
+
 def shrink_candidates(case):
     fn = case["fn"]
     c = dict(case)
-    if fn == "rank":
-        if case["shape"]:
-            d = dict(c); d["shape"] = None
+    for key in ("layout", "llayout"):
+        if c.get(key, "C") != "C":
+            d = dict(c); d[key] = "C"
             yield d
-        a = case["a"]
+    if c.get("shape") is not None and fn != "mode" or (fn == "mode" and c.get("shape") is not None):
+        d = dict(c); d["shape"] = None
+        yield d
+    if fn == "rank":
+        a = case["vals"]
         if len(a) > 3:
-            for part in (a[:len(a) // 2], a[len(a) // 2:]):
-                d = dict(c); d["a"] = part; d["shape"] = None
+            for lo, hi in ((0, len(a) // 2), (len(a) // 2, len(a))):
+                d = dict(c); d["vals"] = a[lo:hi]; d["shape"] = None
+                d["nz"] = [q - lo for q in case["nz"] if lo <= q < hi]
                 yield d
         if len(a) > 1:
-            for b in _drop_each(a):
-                d = dict(c); d["a"] = b; d["shape"] = None
+            for d in _drop_vals(c, "vals", "nz"):
                 yield d
         if case["nbins"] is not None and case["nbins"] > 1:
             d = dict(c); d["nbins"] = case["nbins"] - 1
             yield d
     elif fn == "median":
         n = len(case["labels"])
-        if case["shape"]:
-            d = dict(c); d["shape"] = None
-            yield d
-        if n > 1:
+        if n > 1 and not case.get("coded"):
             for k in range(n):
                 d = dict(c); d["shape"] = None
                 d["labels"] = case["labels"][:k] + case["labels"][k + 1:]
-                d["image2"] = case["image2"][:k] + case["image2"][k + 1:]
+                d["h"] = case["h"][:k] + case["h"][k + 1:]
                 yield d
         for b in _drop_each(case["indices"]):
             if b:
                 d = dict(c); d["indices"] = b
                 yield d
-        if any(case["image2"]):
-            d = dict(c); d["image2"] = [0] * n
+        if any(case["h"]) and not case.get("coded"):
+            d = dict(c); d["h"] = [0] * n
             yield d
     elif fn == "mode":
-        for b in _drop_each(case["a"]):
-            d = dict(c); d["a"] = b
+        for d in _drop_vals(c, "vals", "nz"):
             yield d
     elif fn == "indexes":
         cs = case["counts"]
@@ -548,10 +856,15 @@ def shrink_candidates(case):
                 if v > 0:
                     d = dict(c); d["counts"] = [list(r) for r in cs]; d["counts"][q][o] = v - 1
                     yield d
+    elif fn == "allpairs":
+        if case["n"] > 0:
+            d = dict(c); d["n"] = case["n"] - 1
+            yield d
     elif fn == "pairs":
         n = len(case["i"])
         for k in range(n):
             d = dict(c); d["i"] = case["i"][:k] + case["i"][k + 1:]; d["j"] = case["j"][:k] + case["j"][k + 1:]
+            d["jnz"] = [q - (1 if q > k else 0) for q in case["jnz"] if q != k]
             yield d
 
 
